@@ -822,8 +822,16 @@ def euclid_contract(ctx, rule, body, g):
     upd = [fold_std_ops(expand(defs[x][1][0])) for x in carried]
     rnd = random.Random(7)
     bad = None
+    lb = set()
+    for h_, bl_ in natural_loops(body):
+        lb |= set(bl_)
+    late = overwritten_reads(body, lb, carried)
+    if late:
+        nm = lambda l: body.debug.get(l, "_%d" % l)
+        bad = "the new value of %s is computed from %s after %s has been overwritten in the same iteration (%s): not the simultaneous Euclid step" % (
+            nm(late[0][0]), nm(late[0][1]), nm(late[0][1]), late[0][2])
     n = 0
-    for _ in range(400):
+    for _ in range(0 if bad else 400):
         A, B = rnd.randint(-60, 60), rnd.randint(-60, 60)
         rv, sv, tv, uv = (rnd.randint(-9, 9) for _ in range(4))
         av, anv = rv * A + sv * B, tv * A + uv * B
@@ -847,8 +855,8 @@ def euclid_contract(ctx, rule, body, g):
             bad = "the step does not keep r*s' - s*r' = +-1 (from %s it yields %s)" % (st, tuple(new))
         if bad:
             break
-    ctx.ob(rule, body.name, "step", "ok" if not bad else "violation",
-           "the loop invariant is preserved, a := a', |a'| decreases, determinant changes sign only (%d sampled states)" % n if not bad else bad)
+    ctx.ob(rule, body.name, "step", "ok" if not bad and n else "violation",
+           "the loop invariant is preserved, a := a', |a'| decreases, determinant changes sign only (%d sampled states); every carried variable is read before it is overwritten" % n if not bad and n else (bad or "nothing evaluated"))
     # exit exactly when a' == 0
     badx = None
     nx = 0
@@ -1205,3 +1213,55 @@ def coset_table_layout(ctx, rule, g):
             oksome = False
     ctx.ob(rule, CT + "get", "Some <- c < len() && cell >= 0", "ok" if oksome else "violation",
            "an image is reported only for rows inside the table and non-negative cells" if oksome else "get() can report an image for a row beyond the table or for an undefined (-1) cell")
+
+
+def overwritten_reads(body, loop_blocks, carried):
+    """Origin terms name a multi-assigned local by the local alone, not by the moment it is read.  For the update expressions of loop-carried
+    variables that is only right if every carried variable is read BEFORE it is overwritten in the same iteration (a simultaneous update such as
+    `(a, b) = (b, a - q * b)`).  -> [(written local, read local, span)] for reads that come after an in-loop write of the read variable."""
+    carried = {c[1] if isinstance(c, tuple) else c for c in carried}
+    pos_key = lambda si: 10 ** 6 if si == "term" else si
+    out = []
+
+    def reads(rv_ops, pos, depth=0):
+        for op in rv_ops:
+            if op.get("k") not in ("copy", "move"):
+                continue
+            ls = [op["place"]["l"]] + [e["l"] for e in op["place"]["p"] if e["k"] == "index"]
+            for l in ls:
+                if l in carried:
+                    yield l, pos
+                elif depth < 12 and body.is_stable_local(l) and not (1 <= l <= body.argc):
+                    d = body.defs[l][0]
+                    if d[0] not in loop_blocks:
+                        continue
+                    if d[2] == "call":
+                        yield from reads(d[3]["args"], (d[0], "term"), depth + 1)
+                    elif d[2] == "assign":
+                        rv = d[3]["rv"]
+                        ops = rv_operands(rv)
+                        if rv["k"] in ("ref", "copy_for_deref", "discr", "rawptr"):
+                            ops = [{"k": "copy", "place": rv["place"]}]
+                        yield from reads(ops, (d[0], d[1]), depth + 1)
+    for x in carried:
+        for d in body.defs.get(x, []):
+            if d[0] not in loop_blocks:
+                continue
+            if d[2] == "call":
+                rs = reads(d[3]["args"], (d[0], "term"))
+            elif d[2] == "assign" and not d[3]["place"]["p"]:
+                rv = d[3]["rv"]
+                ops = rv_operands(rv)
+                if rv["k"] in ("ref", "copy_for_deref", "discr", "rawptr"):
+                    ops = [{"k": "copy", "place": rv["place"]}]
+                rs = reads(ops, (d[0], d[1]))
+            else:
+                continue
+            for y, (rb, rs_) in rs:
+                for w in body.defs.get(y, []):
+                    if w[0] not in loop_blocks or (w[2] == "assign" and w[3]["place"]["p"]):
+                        continue
+                    before = (w[0] == rb and pos_key(w[1]) < pos_key(rs_)) or (w[0] != rb and body.dominates(w[0], rb))
+                    if before:
+                        out.append((x, y, body.span_of(rb, rs_ if rs_ != "term" else None)))
+    return out
